@@ -223,4 +223,25 @@ func init() {
 	gffLines := `(?s)"bytes"\n(.*?)\tlines := strings\.Split\(gff, "\\n"\)\n`
 	fire("C14", "lines-read-until-the-first-error", "io/gff/gff.go", gffLines, readLoop(""), "STATE/last-line")
 	silent("C14", "lines-read-keeping-the-unterminated-one", "io/gff/gff.go", gffLines, readLoop("\t\t\tlines = append(lines, line)\n"))
+	// round 13
+	gb := "io/genbank/genbank.go"
+	fire("C02", "strong-and-weak-codes-complemented-into-each-other", "transform/transform.go", `(?s)83:  83,(.*?)87:  87,`, "83:  87,${1}87:  83,", "TERM-EVAL/prerequisite C11")
+	locusLine := `(?s)"bytes"\n(.*?)\tlocusString := "LOCUS       " \+ locusData \+ "\\n"\n`
+	fire("C03", "locus-name-cut-to-its-column", gb, locusLine, "\"bytes\"\n\t\"fmt\"\n${1}\tlocusString := fmt.Sprintf(\"LOCUS       %-16.16s%s\\n\", locus.Name, locusData[len(locus.Name):])\n", "STATE/truncating-format")
+	silent("C03", "locus-name-padded-to-its-column", gb, locusLine, "\"bytes\"\n\t\"fmt\"\n${1}\tlocusString := fmt.Sprintf(\"LOCUS       %-1s%s\\n\", locus.Name, locusData[len(locus.Name):])\n")
+	buffered := func(flush string) string {
+		return "\"bufio\"\n\t\"bytes\"\n\t\"os\"\n${1}\tgbk := Build(sequence)\n\tfile, err := os.Create(path)\n\tif err != nil {\n\t\treturn\n\t}\n\tdefer file.Close()\n\tout := bufio.NewWriter(file)\n\t_, _ = out.Write(gbk)\n" + flush
+	}
+	gbWrite := `(?s)"bytes"\n(.*?)\tgbk := Build\(sequence\)\n\t_ = ioutil\.WriteFile\(path, gbk, 0644\)\n`
+	fire("C03", "file-written-through-a-buffer-never-flushed", gb, gbWrite, buffered(""), "STATE/unflushed-writer")
+	silent("C03", "file-written-through-a-buffer-and-flushed", gb, gbWrite, buffered("\t_ = out.Flush()\n"))
+	up := "io/uniprot/uniprot.go"
+	fire("C20", "inflated-stream-capped-by-the-file-size", up, `\tgo Parse\(unzippedBytes, entries, decoderErrors\)\n`, "\tinfo, err := xmlFile.Stat()\n\tif err != nil {\n\t\treturn entries, decoderErrors, err\n\t}\n\tgo Parse(io.LimitReader(unzippedBytes, info.Size()*100), entries, decoderErrors)\n", "STATE/truncating-read")
+	fire("C20", "tokenizer-error-tested-never-reported", up, `\t\t\tif err\.Error\(\) == "EOF" \{\n\t\t\t\tbreak\n\t\t\t\}\n\t\t\terrors <- err\n\t\t\tbreak\n`, "\t\t\tbreak\n", "LOOPEXIT/only io.EOF")
+	rotHead := `\trotationIndex := boothLeastRotation\(sequence\)\n`
+	fire("C12", "two-letter-sequences-returned-as-given", sh, rotHead, "\tif len(sequence) <= 2 {\n\t\treturn sequence\n\t}\n\trotationIndex := boothLeastRotation(sequence)\n", "TERM/RotateSequence")
+	fire("C14", "minus-strand-read-as-complement", "io/gff/gff.go", `\t\t\trecord\.Strand = fields\[6\]\n`, "\t\t\trecord.Strand = fields[6]\n\t\t\trecord.SequenceLocation.Complement = record.Strand == \"-\"\n", "COORD/Parse:location is the plain span")
+	fire("C11", "unexpanded-tail-copied-as-typed", "transform/variants/variants.go", `(?s)\tfor _, s := range strings\.ToUpper\(seq\) \{\n(.*?)\tcartesianProducts := cartRune\(seqVariantList\.\.\.\)\n\tfor _, product := range cartesianProducts \{\n\t\tseqVariants = append\(seqVariants, string\(product\)\)\n`,
+		"\tupperSeq := strings.ToUpper(seq)\n\tfor _, s := range upperSeq {\n${1}\tsharedFrom := strings.LastIndexAny(upperSeq, \"RYMKSWHBVDN\") + 1\n\tsharedSuffix := seq[sharedFrom:]\n\tcartesianProducts := cartRune(seqVariantList[:sharedFrom]...)\n\tfor _, product := range cartesianProducts {\n\t\tseqVariants = append(seqVariants, string(product)+sharedSuffix)\n", "SHAPE/DEPEND")
+	fire("C17", "window-moved-once-per-ban", pm, `\t\t\tfor strings\.Contains\(debruijn\[start:end\], bannedSequence\) \{\n`, "\t\t\tif strings.Contains(debruijn[start:end], bannedSequence) {\n", "RETEST/shift after strings.Contains")
 }
